@@ -22,6 +22,29 @@ open SSV.SWF
 /-- Gen side condition: the proofs are for the block width the source has now. -/
 theorem gen_swfBlockBits : SSV.Gen.C04.swfBlockBits = 64 := by decide
 
+/-- Gen side condition: the bodies of the filter functions the model `SSV.SWF` mirrors statement by statement
+(all arithmetic on the peer-controlled 64-bit packet id: `counter > f.last`, `f.last-counter >= f.size`,
+`counter / swfBlockBits & mask`, `counter % swfBlockBits`, `min(int(blockIndex-lastBlockIndex), len(f.ring))`,
+the clearing loop, `1 << bits.Len64(size+swfBlockBits-1)`), as the source has them now. -/
+theorem gen_swf_sources :
+    SSV.Gen.C04.srcSwfNew =
+      "{ ringBits := uint64(1 << bits.Len64(size+swfBlockBits-1)) ringBlocks := ringBits / swfBlockBits return &SlidingWindowFilter{ size: size, ring: make([]uint, ringBlocks), ringBlockIndexMask: ringBlocks - 1, } }" ∧
+    SSV.Gen.C04.srcSwfIsOk =
+      "{ if counter > f.last { return true } if f.last-counter >= f.size { return false } return f.ring[f.blockIndex(counter)]&(1<<f.bitIndex(counter)) == 0 }" ∧
+    SSV.Gen.C04.srcSwfMustAdd =
+      "{ blockIndex := f.unmaskedBlockIndex(counter) if counter > f.last { lastBlockIndex := f.unmaskedBlockIndex(f.last) clearBlockCount := min(int(blockIndex-lastBlockIndex), len(f.ring)) for range clearBlockCount { lastBlockIndex = (lastBlockIndex + 1) & f.ringBlockIndexMask f.ring[lastBlockIndex] = 0 } f.last = counter } blockIndex &= f.ringBlockIndexMask f.ring[blockIndex] |= 1 << f.bitIndex(counter) }" ∧
+    SSV.Gen.C04.srcSwfAdd =
+      "{ unmaskedBlockIndex := f.unmaskedBlockIndex(counter) blockIndex := unmaskedBlockIndex & f.ringBlockIndexMask bitIndex := f.bitIndex(counter) switch { case counter > f.last: lastBlockIndex := f.unmaskedBlockIndex(f.last) clearBlockCount := min(int(unmaskedBlockIndex-lastBlockIndex), len(f.ring)) for range clearBlockCount { lastBlockIndex = (lastBlockIndex + 1) & f.ringBlockIndexMask f.ring[lastBlockIndex] = 0 } f.last = counter case f.last-counter >= f.size: return false case f.ring[blockIndex]&(1<<bitIndex) != 0: return false } f.ring[blockIndex] |= 1 << bitIndex return true }" ∧
+    SSV.Gen.C04.srcSwfReset =
+      "{ f.last = 0 f.ring[0] = 0 }" ∧
+    SSV.Gen.C04.srcSwfBlockIndex =
+      "{ return counter / swfBlockBits & f.ringBlockIndexMask }" ∧
+    SSV.Gen.C04.srcSwfUnmaskedBlockIndex =
+      "{ return counter / swfBlockBits }" ∧
+    SSV.Gen.C04.srcSwfBitIndex =
+      "{ return counter % swfBlockBits }" :=
+  ⟨rfl, rfl, rfl, rfl, rfl, rfl, rfl, rfl⟩
+
 /-- the window sizes the theorems quantify over -/
 def SizeOk (size : Nat) : Prop := 1 ≤ size ∧ size + 63 < 2 ^ 63
 
@@ -127,6 +150,42 @@ theorem gen_udp_constants :
     SSV.Gen.C04.MaxEpochDiff = 30 ∧ SSV.Gen.C04.clientSessionChangeMinInterval = 60 * 1000000000 := by
   decide
 
+/-- Gen side condition: the timestamp validation both UDP header parsers call, as the source has it now — the
+body of `ValidateUnixEpochTimestamp` (wrapping `int64` subtraction of whole seconds, two signed comparisons
+against `±MaxEpochDiff`; model: `SaltPool.tsValidWord` on 64-bit words) … -/
+theorem gen_src_validateTimestamp : SSV.Gen.C04.srcValidateTimestamp =
+    "{ tsEpoch := int64(binary.BigEndian.Uint64(b)) nowEpoch := now.Unix() diff := tsEpoch - nowEpoch if diff < -MaxEpochDiff || diff > MaxEpochDiff { return &HeaderError[int64]{ErrBadTimestamp, nowEpoch, tsEpoch} } return nil }" := rfl
+
+/-- … and its call sites: the error-producing statements of the two UDP header parsers in order (length, type,
+timestamp via `ValidateUnixEpochTimestamp(b[1:1+8], now)`, [client session id,] padding, address): the order
+`parseClientHeader` / `parseServerHeader` mirror. -/
+theorem gen_udpHeaderChecks :
+    SSV.Gen.C04.udpClientHeaderChecks =
+      ["if len(b) < UDPClientMessageHeaderFixedLength", "if b[0] != HeaderTypeClientPacket",
+       "err<-ValidateUnixEpochTimestamp(b[1:1+8], now)", "ret-if-err", "if payloadStart > len(b)",
+       "err<-domainCache.ConnAddrFromSlice(b[payloadStart:])", "ret-if-err"] ∧
+    SSV.Gen.C04.udpServerHeaderChecks =
+      ["if len(b) < UDPServerMessageHeaderFixedLength", "if b[0] != HeaderTypeServerPacket",
+       "err<-ValidateUnixEpochTimestamp(b[1:1+8], now)", "ret-if-err", "if pcsid != csid", "if payloadStart > len(b)",
+       "err<-socks5.AddrPortFromSlice(b[payloadStart:])", "ret-if-err"] := ⟨rfl, rfl⟩
+
+/-- **timestamp_check_meaning.** For EVERY 64-bit timestamp word (not only "clock moved by a bit more than 30 s"):
+on a sane clock the check as written accepts the word iff, read as `int64`, it is within `MaxEpochDiff` = 30
+seconds of the clock; hence a delivered packet — server or client unpacker, any state — carries such a
+timestamp. -/
+theorem timestamp_check_meaning (now : Nat) (hck : ClockOk now) :
+    (∀ ts : BitVec 64, tsValid ts now = true ↔ tsNear ts now) ∧
+    (∀ (st : ServerState) (p : Packet), (serverStep st now p).2 = .ok → tsNear p.ts now) ∧
+    (∀ (st : ClientState) (p : Packet), (clientStep st now p).2 = .ok → tsNear p.ts now) := by
+  refine ⟨fun ts => tsValid_iff_near ts hck, fun st p h => ?_, fun st p h => ?_⟩
+  · exact (tsValid_iff_near p.ts hck).mp (parseClientHeader_none (serverStep_ok h).2.2).2.2.1
+  · exact (tsValid_iff_near p.ts hck).mp (parseServerHeader_none (clientStep_ok h).2.2).2.2.1
+
+example : ClockOk 100000000000 ∧ tsNear 130 100000000000 ∧ ¬ tsNear 131 100000000000 ∧
+    ¬ tsNear (100 + 4611686018427387904) 100000000000 ∧ ¬ tsNear (100 + 36028797018963968) 100000000000 ∧
+    ¬ tsNear 18446744073709551615 100000000000 := by
+  simp [ClockOk, tsNear, SSV.SaltPool.unixSec, SSV.SaltPool.nsPerSec, tsParams, SSV.Gen.C04.MaxEpochDiff]
+
 /-- **rejected_is_noop.** A packet that is not delivered — too short, replayed, forged (AEAD does not
 open), wrong type, stale timestamp, another client's session id, malformed rest, or (client) a server
 session change refused by the one-minute rule — leaves the unpacker state exactly as it was:
@@ -140,12 +199,13 @@ theorem rejected_is_noop :
 example : ∃ (st : ServerState) (now : Nat) (p : Packet), (serverStep st now p).2 ≠ .ok :=
   ⟨serverInit 4, 0, { long := true, sid := 0, pid := 0, authentic := false, hdr := true, typ := 0, ts := 0, csid := 0, rest := true }, by decide⟩
 
-/-- **junk_never_delivered.** Forged, wrong-type, stale-timestamp packets (and, on the client, packets that
-name another client session) are never delivered, in any state. -/
+/-- **junk_never_delivered.** Forged, wrong-type, stale packets — stale = the 64-bit timestamp word, read as `int64`,
+is more than `MaxEpochDiff` s away from the clock, whatever its value — (and, on the client, packets that name
+another client session) are never delivered, in any state, on a sane clock. -/
 theorem junk_never_delivered :
-    (∀ (st : ServerState) (now : Nat) (p : Packet), serverJunk now p = true → (serverStep st now p).2 ≠ .ok) ∧
-    (∀ (st : ClientState) (now : Nat) (p : Packet), clientJunk st.csid now p = true → (clientStep st now p).2 ≠ .ok) :=
-  ⟨fun _ _ _ h => serverJunk_rejected h, fun _ _ _ h => clientJunk_rejected h⟩
+    (∀ (st : ServerState) (now : Nat) (p : Packet), ClockOk now → serverJunk now p = true → (serverStep st now p).2 ≠ .ok) ∧
+    (∀ (st : ClientState) (now : Nat) (p : Packet), ClockOk now → clientJunk st.csid now p = true → (clientStep st now p).2 ≠ .ok) :=
+  ⟨fun _ _ _ hc h => serverJunk_rejected hc h, fun _ _ _ hc h => clientJunk_rejected hc h⟩
 
 example : serverJunk 0 { long := true, sid := 0, pid := 0, authentic := true, hdr := true, typ := 0, ts := 31, csid := 0, rest := true } = true := by
   decide
@@ -154,28 +214,30 @@ example : serverJunk 0 { long := true, sid := 0, pid := 0, authentic := true, hd
 other packets: the verdicts of the non-junk packets of a history equal the verdicts of the history
 with the junk removed (every state, every history; server and client). -/
 theorem junk_interleaving :
-    (∀ (st : ServerState) (evs : List Event),
+    (∀ (st : ServerState) (evs : List Event), (∀ e ∈ evs, ClockOk e.1) →
       ((evs.zip (serverRun st evs)).filter (fun e => !serverJunk e.1.1 e.1.2)).map (·.2) =
         serverRun st (evs.filter (fun e => !serverJunk e.1 e.2))) ∧
-    (∀ (st : ClientState) (evs : List Event),
+    (∀ (st : ClientState) (evs : List Event), (∀ e ∈ evs, ClockOk e.1) →
       ((evs.zip (clientRun st evs)).filter (fun e => !clientJunk st.csid e.1.1 e.1.2)).map (·.2) =
         clientRun st (evs.filter (fun e => !clientJunk st.csid e.1 e.2))) :=
   ⟨server_junk_filter, client_junk_filter⟩
 
 /-- **server_unpack_refines.** For every filter size in range, after every history `pre` (any mix of
 genuine, replayed, reordered, forged, stale, malformed packets at any times) the server unpacker
-delivers a packet iff it is long enough, authentic, its header validates now, and its packet id is
+delivers a packet iff it is long enough, authentic, its header validates now (complete, client type, timestamp
+word within `MaxEpochDiff` s of the clock, well-formed rest), and its packet id is
 fresh w.r.t. the ids delivered so far (not delivered; newer than, or fewer than `size` behind, the
 newest delivered; or nothing delivered yet). -/
-theorem server_unpack_refines (n : Nat) (h : SizeOk n) (pre : List Event) (now : Nat) (p : Packet) :
+theorem server_unpack_refines (n : Nat) (h : SizeOk n) (pre : List Event) (now : Nat) (hck : ClockOk now) (p : Packet) :
     (serverStep (serverAfter (serverInit n) pre) now p).2 = .ok ↔
-      (p.long = true ∧ p.authentic = true ∧ parseClientHeader now p = none ∧
+      (p.long = true ∧ p.authentic = true ∧
+        (p.hdr = true ∧ p.typ = SSV.Gen.C04.HeaderTypeClientPacket ∧ tsNear p.ts now ∧ p.rest = true) ∧
         Fresh n (serverDelivered (serverInit n) [] pre) p.pid) := by
   have h0 : SInv (serverInit n) [] := rfl
   obtain ⟨hinv, hsz⟩ := serverRun_inv (st := serverInit n) h.1 h.2 h0 pre
   have hsz' : (serverAfter (serverInit n) pre).filterSize = n := hsz
   have := (serverStep_spec (by rw [hsz']; exact h.1) (by rw [hsz']; exact h.2) hinv now p).1
-  rw [hsz'] at this
+  rw [hsz', parseClientHeader_none_iff, tsValid_iff_near p.ts hck] at this
   exact this
 
 /-- **server_at_most_once.** The server unpacker never delivers the same packet id twice in a session. -/
@@ -196,8 +258,8 @@ foreign packets; any number of server sessions coming, going and coming back), n
 twice: the (server session id, packet id, timestamp) triples of the delivered packets are pairwise
 distinct — whether the packet's session is still current, is the old one, or was dropped in the
 meantime (then the one-minute rule plus the timestamp check reject the replay).
-Sanity hypotheses `EvOk`: header timestamps are `int64` values and the clock is below 2^62 s (so that
-`tsEpoch - nowEpoch` does not wrap). An honest server uses each (session id, packet id) once, so a
+Timestamps are arbitrary 64-bit words; the only sanity hypothesis `EvOk` is a clock whose `Unix()+30` is an
+`int64`. The proof goes through `timestamp_check_meaning` (accepted ⇒ within 30 s, for every word). An honest server uses each (session id, packet id) once, so a
 replay is a packet with the same triple. -/
 theorem client_at_most_once (n csid : Nat) (h : SizeOk n) (evs : List Event)
     (hm : MonoFrom 0 evs) (hr : ∀ e ∈ evs, EvOk e) :
@@ -209,7 +271,8 @@ example : ∃ evs : List Event, MonoFrom 0 evs ∧ (∀ e ∈ evs, EvOk e) ∧ c
     (2000000000, { long := true, sid := 5, pid := 7, authentic := true, hdr := true, typ := 1, ts := 1, csid := 9, rest := true }),
     (2000000000, { long := true, sid := 5, pid := 8, authentic := true, hdr := true, typ := 1, ts := 1, csid := 9, rest := true }),
     (3000000000, { long := true, sid := 6, pid := 0, authentic := true, hdr := true, typ := 1, ts := 3, csid := 9, rest := true })],
-   by simp [MonoFrom], by simp [EvOk], by decide⟩
+   by simp [MonoFrom],
+   by simp [EvOk, ClockOk, SSV.SaltPool.unixSec, SSV.SaltPool.nsPerSec, tsParams, SSV.Gen.C04.MaxEpochDiff], by decide⟩
 
 /-- **client_fresh_never_refused.** After every history `pre` on a monotone clock, a long-enough authentic
 packet whose header validates now and whose server session is the current one (resp. the old one) is
@@ -271,3 +334,7 @@ end SSV.C04
 #print axioms SSV.C04.client_at_most_once
 #print axioms SSV.C04.client_change_rate
 #print axioms SSV.C04.client_fresh_never_refused
+#print axioms SSV.C04.gen_src_validateTimestamp
+#print axioms SSV.C04.gen_udpHeaderChecks
+#print axioms SSV.C04.timestamp_check_meaning
+#print axioms SSV.C04.gen_swf_sources
